@@ -16,7 +16,7 @@ PLAN = dict(
           "expected: reference operator scanner + count/order rule + byte-wise base comparison + the C01 "
           "reference on letter-free versions. Plus every sequence of 0-3 operators systematically, and real "
           "comparison patterns x real names. Non-trivial = a candidate with a different base or two bounds; "
-          "distinct by fingerprint of (pattern, names). Later additions: second bounds that are near neighbours of the first (also with a modifier / revision / component appended), digit runs padded with leading zeros beyond 18 characters, package versions at and around both bounds. Round 7: '=' anywhere in a bound but first, bounds that begin with a non-ASCII character / blank / sign followed by '='; an opening character of the glob dialect in the base with the closing one in the last bound. Round 8: a version against its own text decides by the operator alone (also outside the reference's domain); bounds containing '-' with the name BASE-<bound text>; bounds with the largest 64-bit values, values that do not fit and small values behind 40-70 zeros."),
+          "distinct by fingerprint of (pattern, names). Later additions: second bounds that are near neighbours of the first (also with a modifier / revision / component appended), digit runs padded with leading zeros beyond 18 characters, package versions at and around both bounds. Round 7: '=' anywhere in a bound but first, bounds that begin with a non-ASCII character / blank / sign followed by '='; an opening character of the glob dialect in the base with the closing one in the last bound. Round 8: a version against its own text decides by the operator alone (also outside the reference's domain); bounds containing '-' with the name BASE-<bound text>; bounds with the largest 64-bit values, values that do not fit and small values behind 40-70 zeros. Round 10: one case in twelve takes its bounds and most of its versions from one revision cluster."),
     technique="runtime monitor: differential test of Dewey/Pattern compile+match against a reference pattern-structure model, plus Dewey-vs-Pattern agreement",
     level_text=("Exploration: ~10^5 (quick) to ~10^6 (thorough) generated, systematic and corpus pattern/name sets; "
                 "every acceptance decision and match verdict is compared with an independent model and the two "
